@@ -326,6 +326,39 @@ def finish(prop_id, tier, seed, mod, plan, reports, t0, relock, repo_root):
             if reproduced:
                 undecided.remove(n)
                 violations.append((n, path, True))
+    # Locked obligations that are no longer generated: the changed function left the modelled subset (the
+    # verifier is undecided about it).  Same rule: the native falsifier may still find a failing input; it
+    # is run once per function (at most 4 functions) and only a native reproduction becomes a violation.
+    if replay_prog and not relock and missing:
+        seen_fn = set()
+        for n in list(missing):
+            fn = "/".join(n.split("/")[:2])
+            if fn in seen_fn or len(seen_fn) >= 4:
+                continue
+            seen_fn.add(fn)
+            why = [e.get("error") for e in errors if e.get("target") and fn.split("/", 1)[1].split("[")[0] in str(e.get("target"))]
+            path = os.path.join(VERIF, "replays", prop_id + "__" + re.sub(r"[^A-Za-z0-9_.#-]+", "_", n) + ".json")
+            rec = {"property": prop_id, "obligation": n, "kind": "locked-obligation-missing", "backend": None,
+                   "function": fn, "counter_model": None, "was_in_lock": True,
+                   "solver_note": "obligation discharged on the unchanged tree and is no longer generated"
+                                  + (f" ({why[0]})" if why else ""), "native": None}
+            with open(path, "w") as f:
+                json.dump(rec, f, indent=1, default=str)
+            try:
+                p = subprocess.run([NATIVE_PY, os.path.join(VERIF, replay_prog), path, repo_root],
+                                   capture_output=True, text=True, timeout=900, cwd=repo_root,
+                                   env=dict(os.environ, PYTHONPATH=repo_root))
+                rec["native"] = {"cmd": f"{NATIVE_PY} {replay_prog}", "exit": p.returncode,
+                                 "stdout": p.stdout[-4000:], "stderr": p.stderr[-2000:]}
+                reproduced = p.returncode == 1 and "REPRODUCED" in p.stdout
+            except Exception as e:       # pragma: no cover
+                rec["native"] = {"error": repr(e)}
+                reproduced = False
+            rec["reproduced_natively"] = reproduced
+            with open(path, "w") as f:
+                json.dump(rec, f, indent=1, default=str)
+            if reproduced:
+                violations.append((n, path, True))
     n_known = sum(1 for o in obs if o["status"] == "known")
     n_obs = len(obs) - n_known           # obligations expected to hold (known findings are listed apart)
     n_dis = sum(1 for o in obs if o["status"] == "discharged")
